@@ -930,12 +930,222 @@ theorem disp_badop (cx : Btclib.Ctx) (sc : Bytes) (t : Nat) (raw : Bytes) (st1 :
   simp only [hk]
 
 
+/-! ### the `*VERIFY` expansions at loop level -/
+
+theorem iter3_none (cx : Btclib.Ctx) (st : St) (h : iter3 cx st = none) : ∀ f, loop cx f st = .refused := by
+  unfold iter3 at h
+  cases h1 : iter cx st with
+  | none => exact loop_iter_none cx st h1
+  | some n1 =>
+    rw [h1] at h
+    cases n1 with
+    | more a =>
+      simp only at h
+      cases h2 : iter cx a with
+      | none =>
+        intro f; cases f with
+        | zero => rfl
+        | succ f => rw [loop_iter_more cx st a h1]; exact loop_iter_none cx a h2 f
+      | some n2 =>
+        rw [h2] at h
+        cases n2 with
+        | more b =>
+          simp only at h
+          intro f; cases f with
+          | zero => rfl
+          | succ f =>
+            rw [loop_iter_more cx st a h1]
+            cases f with
+            | zero => rfl
+            | succ f => rw [loop_iter_more cx a b h2]; exact loop_iter_none cx b h f
+        | finished x => cases h
+        | unsupported => cases h
+    | finished x => cases h
+    | unsupported => cases h
+
+theorem iter3_more (cx : Btclib.Ctx) (st st' : St) (h : iter3 cx st = some (.more st')) :
+    ∀ f, loop cx (f + 3) st = loop cx f st' := by
+  unfold iter3 at h
+  cases h1 : iter cx st with
+  | none => rw [h1] at h; cases h
+  | some n1 =>
+    rw [h1] at h
+    cases n1 with
+    | more a =>
+      simp only at h
+      cases h2 : iter cx a with
+      | none => rw [h2] at h; cases h
+      | some n2 =>
+        rw [h2] at h
+        cases n2 with
+        | more b =>
+          simp only at h
+          intro f
+          rw [show f + 3 = (f + 2) + 1 from rfl, loop_iter_more cx st a h1, show f + 2 = (f + 1) + 1 from rfl,
+            loop_iter_more cx a b h2, loop_iter_more cx b st' h]
+        | finished x => cases h
+        | unsupported => cases h
+    | finished x => cases h
+    | unsupported => cases h
+
+/-- the expansion of OP_EQUALVERIFY / OP_NUMEQUALVERIFY: three passes, wound back and counted up again -/
+theorem expansion_windback (cx : Btclib.Ctx) (T tX : Nat) (hT : (T = 0x88 ∧ tX = 0x87) ∨ (T = 0x9d ∧ tX = 0x9c))
+    (stack alt : List Bytes) (cond : List Bool) (cnt idx : Int) (rest : Bytes)
+    (hexec : cond.all id = true) (hsize : stack.length + alt.length ≤ 1000)
+    (hshrink : ∀ s a, operation cx tX stack alt = some (.done s a) → s.length + a.length ≤ stack.length + alt.length)
+    (hnoexp : isExpand (operation cx tX stack alt) = false) :
+    iter3 cx { stack := stack, alt := alt, cond := cond, opCodeNum := cnt, scriptIndex := idx, s := UInt8.ofNat T :: rest } =
+      (if cnt + 1 > 201 then none
+       else match (btRes (operation cx tX stack alt)).bind fun p => btRes (operation cx 0x69 p.1 p.2) with
+         | some (s, a) => some (.more { stack := s, alt := a, cond := cond, opCodeNum := cnt + 1, scriptIndex := idx + 1, s := rest })
+         | none => none) := by
+  have hTm : T = 0x88 ∨ T = 0x87 ∨ T = 0x69 ∨ T = 0x9d ∨ T = 0x9c := by rcases hT with ⟨h, _⟩ | ⟨h, _⟩ <;> simp [h]
+  have hXm : tX = 0x88 ∨ tX = 0x87 ∨ tX = 0x69 ∨ tX = 0x9d ∨ tX = 0x9c := by rcases hT with ⟨_, h⟩ | ⟨_, h⟩ <;> simp [h]
+  have eT : operation cx T stack alt = some (.expand stack alt [tX, 0x69]) := by
+    rcases hT with ⟨h1, h2⟩ | ⟨h1, h2⟩ <;> (subst h1; subst h2; rfl)
+  unfold iter3
+  rw [iter_operation cx T hTm stack alt cond cnt idx rest hexec hsize]
+  by_cases hc : cnt + 1 > 201
+  · simp [hc]
+  · simp only [hc, if_false]
+    simp only [eT, List.map_cons, List.map_nil, List.cons_append, List.nil_append, List.length_cons, List.length_nil]
+    rw [iter_operation cx tX hXm stack alt cond _ _ _ hexec hsize]
+    have hc2 : ¬ (cnt + 1 - ((0 + 1 + 1 : Nat) : Int) + 1 > 201) := by omega
+    simp only [hc2, if_false]
+    cases hX : operation cx tX stack alt with
+    | none => rfl
+    | some res =>
+      cases res with
+      | expand s a r => rw [hX] at hnoexp; cases hnoexp
+      | done s a =>
+        simp only [btRes, Option.bind_some]
+        have hs3 : s.length + a.length ≤ 1000 := by have := hshrink s a hX; omega
+        rw [iter_operation cx 0x69 (Or.inr (Or.inr (Or.inl rfl))) s a cond _ _ rest hexec hs3]
+        have hc3 : ¬ (cnt + 1 - ((0 + 1 + 1 : Nat) : Int) + 1 + 1 > 201) := by omega
+        simp only [hc3, if_false]
+        cases h69 : operation cx 0x69 s a with
+        | none => rfl
+        | some res2 =>
+          cases res2 with
+          | done s2 a2 =>
+            simp only [btRes]
+            congr 3 <;> omega
+          | expand s2 a2 r2 =>
+            exfalso
+            have := (well_misc cx [] 0x69 (Or.inl (by decide)) s a).2
+            rw [h69] at this; cases this
+
+theorem shrink_equal (cx : Btclib.Ctx) (stack alt : List Bytes) :
+    (∀ s a, operation cx 0x87 stack alt = some (.done s a) → s.length + a.length ≤ stack.length + alt.length) ∧
+    (∀ s a, operation cx 0x9c stack alt = some (.done s a) → s.length + a.length ≤ stack.length + alt.length) := by
+  constructor
+  · intro s a h
+    rcases stack with _ | ⟨x, _ | ⟨y, r⟩⟩
+    · cases h
+    · cases h
+    · have : operation cx 0x87 (x :: y :: r) alt = some (.done (boolBytes (x == y) :: r) alt) := rfl
+      rw [this] at h; cases h; simp only [List.length_cons]; omega
+  · intro s a h
+    rcases stack with _ | ⟨x, _ | ⟨y, r⟩⟩
+    · cases h
+    · cases h
+    · have : operation cx 0x9c (x :: y :: r) alt = (do
+          let b ← Btclib.num cx x
+          let a ← Btclib.num cx y
+          pure (.done (boolBytes (a == b) :: r) alt)) := rfl
+      rw [this] at h
+      cases h1 : Btclib.num cx x with
+      | none => simp [h1] at h
+      | some v1 =>
+        cases h2 : Btclib.num cx y with
+        | none => simp [h1, h2] at h
+        | some v2 =>
+          simp only [h1, h2, Option.bind_eq_bind, Option.bind_some, pure, Option.some.injEq, OpRes.done.injEq] at h
+          obtain ⟨rfl, rfl⟩ := h
+          simp only [List.length_cons]; omega
+
+/-- OP_EQUALVERIFY / OP_NUMEQUALVERIFY in an executing branch: three passes of btclib's loop against one step of Core's -/
+theorem sim_expansion (cx : Btclib.Ctx) (sc : Bytes) (st : St) (cst : Core.State) (c : UInt8) (r : Bytes)
+    (hR : R st cst) (hsz : st.stack.length + st.alt.length ≤ 1000) (hs : st.s = c :: r)
+    (hT : c.toNat = 0x88 ∨ c.toNat = 0x9d) (hexec : cst.vfExec.all id = true) :
+    SimOp cx sc st cst ⟨c.toNat, [], [c]⟩ r := by
+  obtain ⟨stack, alt, cond, cnt, idx, s⟩ := st
+  obtain ⟨h1, h2, h3, h4⟩ := hR
+  simp only at h1 h2 h3 h4 hs hsz
+  subst hs
+  have hall : cond.all id = true := by rw [h3, all_snoc_true]; exact hexec
+  have hc : UInt8.ofNat c.toNat = c := by simp
+  obtain ⟨tX, hTX, hcomp, hsome⟩ : ∃ tX, ((c.toNat = 0x88 ∧ tX = 0x87) ∨ (c.toNat = 0x9d ∧ tX = 0x9c)) ∧
+      ((btRes (operation cx tX stack alt)).bind fun p => btRes (operation cx 0x69 p.1 p.2))
+        = coreRes (Core.execStackOp (coreCx cx sc) stack alt c.toNat) ∧
+      (Core.execStackOp (coreCx cx sc) stack alt c.toNat).isSome = true := by
+    rcases hT with h | h
+    · refine ⟨0x87, Or.inl ⟨h, rfl⟩, by rw [h]; exact (expansion_refines cx sc stack alt).1, ?_⟩
+      rw [h]
+      rcases stack with _ | ⟨x, _ | ⟨y, rr⟩⟩
+      · rfl
+      · rfl
+      · show (if y == x then some (Except.ok (rr, alt)) else some (Except.error Core.ScriptError.EQUALVERIFY) :
+            Option (Core.R (List Bytes × List Bytes))).isSome = true
+        split <;> rfl
+    · refine ⟨0x9c, Or.inr ⟨h, rfl⟩, by rw [h]; exact (expansion_refines cx sc stack alt).2, ?_⟩
+      rw [h]; rfl
+  have hshr : ∀ s a, operation cx tX stack alt = some (.done s a) → s.length + a.length ≤ stack.length + alt.length := by
+    rcases hTX with ⟨_, rfl⟩ | ⟨_, rfl⟩
+    · exact (shrink_equal cx stack alt).1
+    · exact (shrink_equal cx stack alt).2
+  have hnx : isExpand (operation cx tX stack alt) = false := by
+    rcases hTX with ⟨_, rfl⟩ | ⟨_, rfl⟩
+    · exact (well_misc cx sc 0x87 (Or.inl (by decide)) stack alt).2
+    · exact (well_arith cx sc 0x9c (by decide) stack alt).2
+  have hwb := expansion_windback cx c.toNat tX hTX stack alt cond cnt idx r hall hsz hshr hnx
+  rw [hc] at hwb
+  -- Core's side
+  have hcnt : c.toNat > 0x60 := by rcases hT with h | h <;> omega
+  have hnd : Core.isDisabled c.toNat = false := by rcases hT with h | h <;> (rw [h]; rfl)
+  have hncs : (c.toNat == Core.OP_CODESEPARATOR) = false := by rcases hT with h | h <;> (rw [h]; rfl)
+  have hnp : (decide (c.toNat ≤ 0x4e)) = false := by rcases hT with h | h <;> (rw [h]; rfl)
+  have hnr : Core.inConditionalRange c.toNat = false := by rcases hT with h | h <;> (rw [h]; rfl)
+  unfold SimOp
+  simp only [Core.stepChecks, sv_counted, Bool.true_and, List.length_nil, Core.MAX_SCRIPT_ELEMENT_SIZE,
+    show ¬ (0 > 520) by omega, if_false, List.length_cons, hcnt, decide_true, hnd, hncs, Bool.false_and,
+    Bool.false_eq_true, if_true]
+  by_cases hover : cnt + 1 > 201
+  · have : cst.m.opCount + 1 > Core.MAX_OPS_PER_SCRIPT := by
+      simp only [Core.MAX_OPS_PER_SCRIPT]; rw [h4] at hover; omega
+    simp only [this, decide_true, if_true, Except.bind]
+    apply iter3_none
+    rw [hwb]; simp [hover]
+  · have hno : ¬ (cst.m.opCount + 1 > Core.MAX_OPS_PER_SCRIPT) := by
+      simp only [Core.MAX_OPS_PER_SCRIPT]; rw [h4] at hover; omega
+    simp only [hno, decide_false, Bool.false_eq_true, if_false, Except.bind, hexec, Core.stepExec, Bool.true_and, hnp, hnr]
+    simp only [hover, if_false] at hwb
+    rw [hcomp] at hwb
+    unfold Core.execPlain
+    simp only [← h1, ← h2]
+    cases he : Core.execStackOp (coreCx cx sc) stack alt c.toNat with
+    | none => rw [he] at hsome; cases hsome
+    | some res =>
+      rw [he] at hwb
+      cases res with
+      | error e =>
+        simp only [Except.map]
+        exact iter3_none cx _ hwb
+      | ok p =>
+        obtain ⟨s', a'⟩ := p
+        simp only [Except.map]
+        simp only [coreRes] at hwb
+        have hc4 : cnt + 1 = ((cst.m.opCount + 1 : Nat) : Int) := by omega
+        exact ⟨3, _, by omega, by omega, ⟨rfl, rfl, h3, hc4⟩, rfl, iter3_more cx _ _ hwb⟩
+
+
 /-! ### assembly -/
 
 /-- the op codes the loop-level refinement speaks about -/
 def coveredCode (c : Nat) : Bool :=
   c ≤ 0x4e || (0x51 ≤ c && c ≤ 0x60) || c == 0x61 || nopNs.contains c || Refine.covered.contains c || c == 0x79 || c == 0x7a
   || c == 0xb1 || c == 0xb2 || c == 0x63 || c == 0x64 || c == 0x65 || c == 0x66 || c == 0x67 || c == 0x68 || badOps.contains c
+  || c == 0x88 || c == 0x9d
 
 /-- the scripts the loop-level refinement speaks about: every instruction Core's walk reads is a covered op code -/
 def covered (script : Bytes) : Bool := (parse script).1.all (fun op => coveredCode op.code)
@@ -987,6 +1197,8 @@ theorem sim_op_covered (cx : Btclib.Ctx) (sc : Bytes) (st : St) (cst : Core.Stat
       simp only at hcov
       have hcs : c.toNat ≠ 0xab := by
         intro e; rw [e] at hcov; revert hcov; decide
+      by_cases hexp : (c.toNat = 0x88 ∨ c.toNat = 0x9d) ∧ cst.vfExec.all id = true
+      · exact sim_expansion cx sc st cst c rest hR hsz hs hexp.1 hexp.2
       apply sim_nonpush cx sc st cst c rest hR hsz hs hp hcs
       intro st1 s1 hR1 _ _ _ _ hv _ _ hh
       -- which family
@@ -996,7 +1208,7 @@ theorem sim_op_covered (cx : Btclib.Ctx) (sc : Bytes) (st : St) (cst : Core.Stat
         · exact absurd h p
       simp only [coveredCode, Bool.or_eq_true, decide_eq_true_eq, Bool.and_eq_true, beq_iff_eq,
         List.contains_iff_mem] at hcov
-      rcases hcov with ((((((((((((((h | h) | h) | h) | h) | h) | h) | h) | h) | h) | h) | h) | h) | h) | h) | h
+      rcases hcov with ((((((((((((((((h | h) | h) | h) | h) | h) | h) | h) | h) | h) | h) | h) | h) | h) | h) | h) | h) | h
       · -- OP_0
         have h0 : c.toNat = 0 := by omega
         rw [hrange_of (by omega)]
@@ -1038,6 +1250,8 @@ theorem sim_op_covered (cx : Btclib.Ctx) (sc : Bytes) (st : St) (cst : Core.Stat
       · rw [hrange_of (by
           intro p; simp only [badOps, List.mem_cons, List.mem_nil_iff, or_false] at h; omega)]
         exact disp_badop cx sc _ _ st1 s1 h
+      · exact absurd ⟨Or.inl h, hrange_of (by omega)⟩ hexp
+      · exact absurd ⟨Or.inr h, hrange_of (by omega)⟩ hexp
 
 
 theorem parseOps_length (f : Nat) (s : Bytes) : (parseOps f s).1.length ≤ s.length := by
